@@ -415,7 +415,84 @@ loop:
 	o.ImplOnly(id, abstract, true)
 }
 
+// a reader that reports when the decoder asks it for bytes for the first time, holds that read until released, and
+// counts what it hands over
+type parkedReader struct {
+	asked   chan struct{}
+	release chan struct{}
+	src     *bytes.Reader
+	n       int
+	first   bool
+}
+
+func (p *parkedReader) Read(b []byte) (int, error) {
+	if !p.first {
+		p.first = true
+		close(p.asked)
+		<-p.release
+	}
+	k, err := p.src.Read(b)
+	p.n += k
+	return k, err
+}
+
+// c02LimitWhileWaiting: the limit is configured (or lowered) while a decoder is already waiting for the next frame, as
+// every idle connection does: the frame that then arrives is judged by the limit in force when its length is read -
+// rejected with the body unread.  Oracle only.  case: parked|<old>|<new>|<payload>
+func c02LimitWhileWaiting(o *common.Out, id string, old, limit, payload int) {
+	abstract := fmt.Sprintf("parked|%d|%d|%d", old, limit, payload)
+	o.Begin(id, abstract)
+	o.Count("limit-set-while-a-decoder-waits")
+	protocol.MaxMessageLength = old
+	defer func() { protocol.MaxMessageLength = 0 }()
+	var h [12]byte
+	h[0], h[3] = 8, 1<<4
+	frame := refcodec.Build(h, []byte("P"), []byte("m"), nil, bytes.Repeat([]byte{'z'}, payload))
+	pr := &parkedReader{asked: make(chan struct{}), release: make(chan struct{}), src: bytes.NewReader(frame)}
+	msg := protocol.NewMessage()
+	done := make(chan error, 1)
+	go func() { done <- msg.Decode(pr) }()
+	select {
+	case <-pr.asked:
+	case <-time.After(3 * time.Second):
+		o.Fail(id, "rig", "the decoder never asked for bytes", abstract)
+		return
+	}
+	protocol.MaxMessageLength = limit
+	close(pr.release)
+	var err error
+	select {
+	case err = <-done:
+	case <-time.After(3 * time.Second):
+		o.Fail(id, "decode-hangs", "Decode did not return", abstract)
+		return
+	}
+	tooLong := len(frame)-16 > limit
+	switch {
+	case tooLong && (err == nil || pr.n != 16):
+		o.Fail(id, "maxlen-not-enforced", fmt.Sprintf("MaxMessageLength was set to %d while the decoder was waiting; the frame of %d bytes that then arrived: err=%v, %d bytes consumed (want an error after 16)", limit, len(frame), err, pr.n), abstract)
+	case !tooLong && err != nil:
+		o.Fail(id, "valid-frame-rejected", fmt.Sprintf("a frame of %d bytes under the limit %d: %v", len(frame), limit, err), abstract)
+	}
+	o.ImplOnly(id, abstract, true)
+}
+
 func runC02(r *common.Rand, tier string, o *common.Out, replay string) {
+	if strings.HasPrefix(replay, "parked|") {
+		p := strings.Split(replay, "|")
+		a, _ := strconv.Atoi(p[1])
+		b, _ := strconv.Atoi(p[2])
+		c, _ := strconv.Atoi(p[3])
+		c02LimitWhileWaiting(o, "replay", a, b, c)
+		return
+	}
+	if replay == "" {
+		k := 0
+		for _, cfg := range [][3]int{{0, 64, 4096}, {1 << 20, 1024, 2000}, {0, 100, 50}, {64, 1 << 20, 3000}, {0, 30, 15}, {4096, 200, 185}} {
+			k++
+			c02LimitWhileWaiting(o, fmt.Sprintf("parked%d", k), cfg[0], cfg[1], cfg[2])
+		}
+	}
 	protocol.Compressors[protocol.CompressType(2)] = &protocol.SnappyCompressor{}
 	if replay != "" {
 		p := strings.Split(replay, "|")
